@@ -610,7 +610,8 @@ package dt
 // stack the sentinel is returned (not ok) and the stack stays usable.
 //@ func (*Stack).Pop
 //@   props C16
-//@   requires s != nil && slwf(s)
+//@   requires s == nil || slwf(s)
+//@   panics when s == nil
 //@   modifies s.head, s.length, s.bottom, Item.stack, s.items, Item.pos
 //@   ghostset s.bottom = old(s.head) == nil ? s.head : old(s.bottom)
 //@   ghostset s.items = len(old(s.items)) > 0 ? old(s.items)[1:] : old(s.items)
@@ -631,6 +632,7 @@ package dt
 //@   ensures removed: it != nil && old(it.stack) != nil && old(it.ok) ==> result == true && it.stack == nil && swf(old(it.stack)) && old(it.stack).items == remove(old(it.stack.items), old(it.pos))
 //@   loop 1 invariant it != nil && it.stack != nil && it.stack == old(it.stack) && swf(it.stack) && it.stack.items == old(it.stack.items) && smember(it.stack, it) && next != nil
 //@   loop 1 invariant (next == it.stack.bottom && it.pos >= len(it.stack.items)) || (smember(it.stack, next) && next.pos <= it.pos)
+//@   loop 1 invariant prev == nil ? next == it.stack.head : (smember(it.stack, prev) && prev.next == next && (next == it.stack.bottom ? prev.pos == len(it.stack.items) - 1 : prev.pos + 1 == next.pos))
 //@   loop 1 decreases (next == it.stack.bottom ? 0 : len(it.stack.items) - next.pos)
 
 //@ func (*Item).In
